@@ -7,6 +7,7 @@ toolchain go1.24.2
 require (
 	buf.build/gen/go/bufbuild/bufplugin/protocolbuffers/go v1.36.6-20250121211742-6d880cc6cc8d.1
 	buf.build/go/bufplugin v0.8.0
+	buf.build/go/protoyaml v0.3.2
 	connectrpc.com/connect v1.18.1
 	github.com/bufbuild/buf v0.0.0
 	github.com/bufbuild/protocompile v0.14.1
@@ -24,7 +25,6 @@ require (
 	buf.build/gen/go/bufbuild/registry/connectrpc/go v1.18.1-20250408145534-f5ce355693bb.1 // indirect
 	buf.build/gen/go/bufbuild/registry/protocolbuffers/go v1.36.6-20250408145534-f5ce355693bb.1 // indirect
 	buf.build/gen/go/pluginrpc/pluginrpc/protocolbuffers/go v1.36.6-20241007202033-cf42259fcbfc.1 // indirect
-	buf.build/go/protoyaml v0.3.2 // indirect
 	buf.build/go/spdx v0.2.0 // indirect
 	cel.dev/expr v0.23.1 // indirect
 	connectrpc.com/otelconnect v0.7.2 // indirect
